@@ -150,7 +150,7 @@ package stgutg
 //@ func ManageNGSetup
 //@ prop C19
 //@ behavior failstop
-//@ assigns global free5gclib/nas/security/snow3g.lfsr free5gclib/nas/security/snow3g.fsm
+//@ assigns global free5gclib/nas/security/snow3g.lfsr free5gclib/nas/security/snow3g.fsm tglib/ngapTestpacket.TestPlmn
 //@ driver
 //@ assumepre
 //@ nosafety
@@ -300,7 +300,7 @@ package stgutg
 //@ driver
 //@ assumepre
 //@ nosafety
-//@ assigns global free5gclib/nas/security/snow3g.lfsr free5gclib/nas/security/snow3g.fsm
+//@ assigns global free5gclib/nas/security/snow3g.lfsr free5gclib/nas/security/snow3g.fsm tglib/ngapTestpacket.TestPlmn
 //@ ensures ngap: vc.GhostLen("ngap.built") == 1 && trace.Is(vc.GhostBytes("ngap.built", 0), trace.NGSetupRequest, int64(bitlength), 0, 0)
 //@ ensures nonas: vc.GhostLen("nas.built") == 0 && vc.GhostLen("nas.protect") == 0
 
